@@ -262,4 +262,7 @@ ASSUMPTIONS = [
 ]
 
 if __name__ == '__main__':
-    main()
+    try:
+        main()
+    except env.HarnessError as e:
+        harness_error(str(e))
